@@ -432,7 +432,12 @@ func (in *Interp) recordEnd(p *pathState, panicIsViolation bool, unwindIsViolati
 	case "panic", "deadlock":
 		label := p.end.kind + ":" + p.end.msg
 		s.violSeen[label]++
-		if s.violSeen[label] <= s.MaxViolPerLabel {
+		// hangs depend on the schedule: keep more witnesses, any one that reproduces natively counts
+		max := s.MaxViolPerLabel
+		if p.end.kind == "deadlock" {
+			max = 8
+		}
+		if s.violSeen[label] <= max {
 			w := &Witness{Harness: s.Harness, Kind: p.end.kind, Label: label, Msg: p.end.msg, Decisions: append([]int{}, p.decisions...), Params: in.cfg.Params}
 			w.Nondet = p.endNondet
 			s.Violations = append(s.Violations, w)
@@ -440,7 +445,7 @@ func (in *Interp) recordEnd(p *pathState, panicIsViolation bool, unwindIsViolati
 	case "unwind":
 		w := &Witness{Harness: s.Harness, Kind: "unwind", Label: "unwind", Msg: p.end.msg, Decisions: append([]int{}, p.decisions...), Params: in.cfg.Params}
 		w.Nondet = p.endNondet
-		if len(s.Unwinds) < 3 {
+		if len(s.Unwinds) < 8 {
 			s.Unwinds = append(s.Unwinds, w)
 		} else {
 			s.Unwinds[0].Msg = s.Unwinds[0].Msg // keep first few only
